@@ -159,7 +159,7 @@ func genFileDoc(r *simrt.Rng, now0 int64, forRestart bool) (ydoc, *FileExpect) {
 		"start-rate": fmt.Sprintf("%d/100ms", r.Intn(3)), "end-rate": fmt.Sprintf("%d/100ms", 4+r.Intn(4)),
 		"stages": "0s:1,200ms:4", "iteration-frequency": simrt.Pick(r, "50ms", "100ms"), "volume": "200", "repeat": "2s",
 		"peak": "1s", "weights": `""`, "standard-deviation": "400ms", "concurrency": fmt.Sprint(1 + r.Intn(3)),
-		"duration": msStr(int64(simrt.Pick(r, 150, 200, 350))), "mode": simrt.Pick(r, "constant", "users"),
+		"duration": msStr(int64(simrt.Pick(r, 150, 200, 350)) + 3), "mode": simrt.Pick(r, "constant", "users"),
 	}
 	for _, k := range sortedKeys(defVals) { // sorted: map order must not influence the draws
 		if r.Intn(2) == 0 || k == "jitter" {
@@ -196,7 +196,9 @@ func genFileDoc(r *simrt.Rng, now0 int64, forRestart bool) (ydoc, *FileExpect) {
 			t, _ := time.ParseDuration(dv)
 			fe.DurNs = int64(t)
 		} else {
-			ms_ := int64(simrt.Pick(r, 100, 150, 200, 250, 300, 400, 600))
+			// + 3 ms: the stage's own deadline (duration - 20 ms) must not fall on a tick of the stage (two timers
+			// due at the same instant in one select are the one ordering the simulator does not control, §2.3)
+			ms_ := int64(simrt.Pick(r, 100, 150, 200, 250, 300, 400, 600)) + 3
 			st.fields["duration"] = msStr(ms_)
 			fe.DurNs = ms_ * ms
 		}
@@ -254,6 +256,9 @@ func genFileDoc(r *simrt.Rng, now0 int64, forRestart bool) (ydoc, *FileExpect) {
 	if r.Intn(5) == 0 {
 		exp.MaxDurationNs = exp.TotalNs * int64(3+r.Intn(6)) / 10
 	}
+	// an odd sub-millisecond part: the run's deadline (max-duration - 10 ms) must not coincide with a stage
+	// boundary or a tick (same-instant timers feeding one goroutine are not ordered by the simulator, §2.3)
+	exp.MaxDurationNs = exp.MaxDurationNs/ms*ms + 137*1000
 	exp.Concurrency = conc
 	exp.MaxIterations = uint64(simrt.Pick(r, 0, 0, 0, 5, 40))
 	exp.MaxFailures = uint64(r.Intn(3))
